@@ -3,6 +3,6 @@
 # usage: try_ref.sh <patch> <Cxx> [more plv args]
 p=$(realpath $1); shift; c=$1; shift
 wt=/tmp/plvtry$$; git -C /repo worktree add --detach -f $wt HEAD >/dev/null 2>&1
-git -C $wt apply $p || { git -C /repo worktree remove --force $wt; exit 2; }
+{ git -C $wt apply $p 2>/dev/null || git -C $wt apply --3way $p; } || { git -C /repo worktree remove --force $wt; exit 2; }
 cd /verif && PLV_REPO=$wt PLV_WORK_TAG=-try$$ ./plv check $c "$@"
 git -C /repo worktree remove --force $wt; rm -rf /verif/.work/*-try$$
